@@ -49,12 +49,12 @@ static int mint(const scn_t *s, int label, int viaInt, cred_t *out)
     return 0;
 }
 
-typedef struct { const scn_t *s; int label, cb, viaInt; } case_t;
+typedef struct { const scn_t *s; int label, cb, viaInt; int depth; /* verifier's max_verify_depth (0 = unlimited); with a good leaf <- intermediate <- root chain 2 is one too few */ } case_t;
 static char cur_desc[200];
 static void report(const case_t *c, const char *clause, const char *fmt, ...)
 {
     char key[200], msg[600]; va_list ap; va_start(ap, fmt); vsnprintf(msg, sizeof msg, fmt, ap); va_end(ap);
-    snprintf(key, sizeof key, "c04:%s:%s:%s:%s%s:%s", clause, mx_vername[c->s->ver], c->s->verifierIsServer ? "server-verifies-client" : "client-verifies-server", lname[c->label], c->viaInt ? "+intermediate-sent" : "", cbname[c->cb]);
+    snprintf(key, sizeof key, "c04:%s:%s:%s:%s%s%s:%s", clause, mx_vername[c->s->ver], c->s->verifierIsServer ? "server-verifies-client" : "client-verifies-server", lname[c->label], c->viaInt ? "+intermediate-sent" : "", c->depth == 2 ? "+verify-depth-exceeded" : c->depth ? "+verify-depth-sufficient" : "", cbname[c->cb]);
     vf_violation(key, cur_desc, "%s | scenario=%s suite=%04x", msg, c->s->name, c->s->suite);
 }
 
@@ -87,11 +87,11 @@ static void run_case(void *a_)
         sslCertCb_t vcb = c->cb == CB_NONE ? NULL : c->cb == CB_STRICT ? cb_strict : c->cb == CB_ANON ? cb_anon : cb_permissive;
         cb_calls = cb_nonzero = cb_last = 0;
         /* sessions are created here (not through mx_new_*) because the callback choice belongs to the verifying side only */
-        mx_opts(&o, &cfg, MX_SERVER); memset(&k.s, 0, sizeof k.s); k.s.role = MX_SERVER; k.s.ver = s->ver; k.s.id = 1; k.s.name = "S";
+        mx_opts(&o, &cfg, MX_SERVER); if (c->depth && s->verifierIsServer) o.validateCertsOpts.max_verify_depth = c->depth; memset(&k.s, 0, sizeof k.s); k.s.role = MX_SERVER; k.s.ver = s->ver; k.s.id = 1; k.s.name = "S";
         mx_actor = 1; MX_ENTER(); rc = matrixSslNewServerSession(&k.s.ssl, cfg.skeys, s->verifierIsServer ? (vcb ? vcb : NULL) : NULL, &o); MX_LEAVE();
         if (rc < 0) { vf_incon("server session rc=%d", rc); matrixSslDeleteSessionId(sid); goto out; }
         if (s->verifierIsServer && !vcb) { /* a server asks for a client certificate only when told to authenticate: flag set by mx_opts? */ }
-        mx_opts(&o, &cfg, MX_CLIENT); memset(&k.c, 0, sizeof k.c); k.c.role = MX_CLIENT; k.c.ver = s->ver; k.c.id = 0; k.c.name = "C"; k.c.wantTake = 1;
+        mx_opts(&o, &cfg, MX_CLIENT); if (c->depth && !s->verifierIsServer) o.validateCertsOpts.max_verify_depth = c->depth; memset(&k.c, 0, sizeof k.c); k.c.role = MX_CLIENT; k.c.ver = s->ver; k.c.id = 0; k.c.name = "C"; k.c.wantTake = 1;
         psCipher16_t cs[1] = { s->suite };
         mx_actor = 0; MX_ENTER(); rc = matrixSslNewClientSession(&k.c.ssl, cfg.ckeys, sid, cs, 1, s->verifierIsServer ? mx_cert_cb_accept : vcb, cfg.expectedName, NULL, NULL, &o); MX_LEAVE();
         if (rc < 0) { if (c->label == L_GOOD) vf_incon("client session rc=%d", rc); mx_ep_free(&k.s); matrixSslDeleteSessionId(sid); goto out; }
@@ -99,9 +99,10 @@ static void run_case(void *a_)
         mx_ep *V = s->verifierIsServer ? &k.s : &k.c;
         int vdone = (V->hsDone || matrixSslHandshakeIsComplete(V->ssl));
         int both = mx_conn_established(&k);
-        vf_distinct("%s|%s|%d|%s|%s|%d", mx_vername[s->ver], s->name, s->verifierIsServer, lname[c->label], cbname[c->cb], c->viaInt);
-        vf_statf(1, "outcome_%s_%s", lname[c->label], vdone ? "complete" : "refused");
-        if (c->label == L_GOOD) {
+        vf_distinct("%s|%s|%d|%s|%s|%d|d%d", mx_vername[s->ver], s->name, s->verifierIsServer, lname[c->label], cbname[c->cb], c->viaInt, c->depth);
+        vf_statf(1, "outcome_%s%s_%s", lname[c->label], c->depth == 2 ? "+depth-exceeded" : c->depth ? "+depth-ok" : "", vdone ? "complete" : "refused");
+        int mustFail = c->label != L_GOOD || c->depth == 2;
+        if (!mustFail) {
             if (!both) report(c, "good-credentials-refused", "handshake with a correct chain and key did not complete (verifier alert sent %d, callback calls %d last alert %d)", V->ssl->err, cb_calls, cb_last);
             else { unsigned char p[64]; mx_payload(p, 64, 0x0c04, 0, 1); mx_send(&k.c, p, 64); mx_conn_run(&k, NULL, NULL, 20); if (k.s.gotlen != 64) report(c, "good-credentials-refused", "no data after completion"); else vf_stat("positive_controls_ok", 1); }
         } else if (vdone) {
@@ -254,11 +255,22 @@ int main(int argc, char **argv)
         /* chain shape: the leaf directly under the anchor, or under an intermediate CA that the peer sends along (the defect, if any, sits in a non-last certificate on the wire) */
         if (via && (l == L_ISSUER_NOT_CA || l == L_EXPIRED_INT || l == L_ANCHOR_PATHLEN || l == L_INT_PATHLEN || l == L_SELF_SIGNED || l == L_NO_TRUST)) continue;
         if (!vf_mine(idx++)) continue;
-        case_t c = { &scns[si], l, cb, via };
+        case_t c = { &scns[si], l, cb, via, 0 };
         snprintf(cur_desc, sizeof cur_desc, "scn=%d(%s/%s) label=%s cb=%s via=%d", si, mx_vername[scns[si].ver], scns[si].name, lname[l], cbname[cb], via);
         if (vf_case && strcmp(vf_case, cur_desc)) continue;
         if (idx % 97 == 0) vf_sample("%s", cur_desc);
         mx_entropy_seed(vf_seed * 31 + idx);
+        vf_fork_case(run_case, &c, "c04", cur_desc, 120);
+    }
+    /* verifier-side limit on the chain depth (sslSessOpts_t validateCertsOpts.max_verify_depth): good chain leaf <- intermediate <- root, limit 2 (one too few) and 3 */
+    for (int si = 0; si < NSCN; si++) for (int cb = 0; cb < CB_N; cb++) for (int depth = 2; depth <= 3; depth++) {
+        if (scns[si].verifierIsServer && cb == CB_NONE) continue;
+        if (cb == CB_ANON && !scns[si].verifierIsServer) continue;
+        if (!vf_mine(idx++)) continue;
+        case_t c = { &scns[si], L_GOOD, cb, 1, depth };
+        snprintf(cur_desc, sizeof cur_desc, "scn=%d(%s/%s) label=good cb=%s via=1 depth=%d", si, mx_vername[scns[si].ver], scns[si].name, cbname[cb], depth);
+        if (vf_case && strcmp(vf_case, cur_desc)) continue;
+        mx_entropy_seed(vf_seed * 43 + idx);
         vf_fork_case(run_case, &c, "c04", cur_desc, 120);
     }
     /* keyless attacker x client cache states */
